@@ -129,6 +129,9 @@ def run(F, rep, tier):
     model.rule_L2(rep, M2)
     from props import C04
     C04.structure_rules(F, reach.Graph(F), rep, M2)
+    # the reader consumes exactly the raw element: the event loop's own bound (a replay without Game End ends by it)
+    from props import C07 as _C07
+    _C07.loop_bound_rule(F, rep, "read.loop-bound")
     # the declared length written into the header is raw_size's value, computed before anything is written
     b = F.body("io::slippi::ser::write")
     txt = tir.pretty(b["tir"]["value"])
